@@ -71,7 +71,7 @@ def build_v1(spec):
         pass
     if spec.get("exceptions"):
         y += "enable_rails_exceptions: true\n"
-    if mode == "passthrough":
+    if mode in ("passthrough", "passthrough_dialog"):
         y += "passthrough: true\n"
     if mode == "multistep":
         y += "enable_multi_step_generation: true\n"
@@ -88,7 +88,7 @@ def build_v1(spec):
         co.append(_v1_rail_flow("in", i, r))
     for i, r in enumerate(outs):
         co.append(_v1_rail_flow("out", i, r))
-    if mode in ("dialog", "single_call", "multistep", "embeddings_only"):
+    if mode in ("dialog", "single_call", "multistep", "embeddings_only", "passthrough_dialog"):
         for k in range(N_TOPICS):
             co.append('define user ask topic %d\n  "topic %d"\n  "tell me about topic %d"\n' % (k, k, k))
         # topic 0: predefined bot message; topic 1: LLM-generated bot message after a dialog action; topic 2: generated
